@@ -108,7 +108,7 @@ func cssString(r *rand.Rand) string {
 	if q == "'" {
 		other = "\""
 	}
-	alpha := []string{"a", "b", " ", "é", "日本", other, "\\" + q, "\\\\", "\\41 ", "\\\n", "\\\r\n", "\\\f", "/*", "*/", "(", ")", "{", ";", "url(", "\t", "\\g", "<!--", "\x00"}
+	alpha := []string{"a", "b", " ", "é", "日本", other, "\\" + q, "\\\\", "\\41 ", "\\\n", "\\\r\n", "\\\f", "/*", "*/", "(", ")", "{", ";", "url(", "\t", "\\g", "<!--", "\x00", "\\26\n", "\\2f\r", "\\41\f", "\\e9\r\n", "\\000026\n"}
 	var sb strings.Builder
 	sb.WriteString(q)
 	for i := SmallLen(r, 8); i > 0; i-- {
@@ -173,7 +173,7 @@ func CSSToken(r *rand.Rand) CSSTok {
 	case 15:
 		return CSSTok{"Percentage", cssNumber(r) + "%"}
 	case 16, 17:
-		unit := Pick(r, []string{"px", "em", "ex", "rem", "x", "deg", "s", "-x", "--y", "_", "é", "\\70x", "Q", "dpi", "n", "n-1", "e", "E", "e-", "e-x", "e_"})
+		unit := Pick(r, []string{"px", "em", "ex", "rem", "x", "deg", "s", "-x", "--y", "_", "é", "\\70x", "Q", "dpi", "n", "n-1", "e", "E", "e-", "e-x", "e_", "-\\41 x", "-\\-a", "-\\x", "-\\66oo"})
 		return CSSTok{"Dimension", cssNumber(r) + unit}
 	case 18:
 		hex := func(n int) string {
